@@ -57,9 +57,21 @@ def gen(rng, tier, index):
         # stop() racing with a scheduled save that has something to write
         cfg["sched"] = {"policy": "rw", "seed": rng.getrandbits(32), "p": rng.choice([0.02, 0.08, 0.2])}
         cfg["max_steps"] = 1_500_000
+        if cfg["flavour"] not in ("mqtt", "amqtt") and rng.random() < 0.4:
+            # an earlier scheduled save overlaps the handling of lines that GROW what it is iterating over (new
+            # nodes, children, value types): whatever that does to that save, the stop() later on loses nothing
+            grow = [f"{rng.choice([60, 61, 62])};255;0;0;17;2.0", f"{rng.choice([1, 2, 3])};{rng.choice([40, 41])};0;0;6;late child",
+                    f"{rng.choice([1, 2, 3])};1;1;0;{rng.choice([24, 25, 26, 27])};grown"]
+            rng.shuffle(grow)
+            for text in grow[: rng.randint(1, 3)]:
+                ops.append(["line", f"{rng.choice([1, 2, 3])};255;3;0;0;{rng.randint(1, 99)}"])
+                ops.append(["line_at_save", text])
+            ops.append(["advance", rng.choice([0.5, 3.0, 9.5, 10.5])])
         if cfg["flavour"] not in ("mqtt", "amqtt") and rng.random() < 0.35:
             # ... while a line arrives that is handled during that save
             ops.append(["stop_at_tick", {"line": f"{rng.choice([1, 2, 3])};255;3;0;11;arrived during the last save"}])
+            if rng.random() < 0.5:
+                cfg["slow_fsync"] = rng.choice([0.08, 0.2, 0.5])  # the save sits in fsync that long (slow medium)
         elif cfg["flavour"] in ("serial", "tcp", "mqtt") and rng.random() < 0.7:
             # ... and that scheduled save fails with a transient error while stop() is waiting for it
             ops.append(["stop_at_tick", {"fault": [rng.choice(["open", "write", "fsync", "close", "rename", "rename2", "remove"]),
